@@ -8,7 +8,7 @@
       - a value import never lands in the type namespace, and a value import of a function / constructor / constant lands in the values.
 (b) C18 "the accessors of imported modules" are offered: ide::completion::complete_expr with one module import: the module is looked up
     under the same local accessor (alias, else accessor) the scope registered it under, and an item is rendered for it."""
-import re, json
+import re, json, os
 import z3
 from mirsym.world import World
 from mirsym.values import *
@@ -23,6 +23,8 @@ def strs(v):
     v = models.deref(v)
     if isinstance(v, Agg) and v.name == 'SmolStr':
         v = v.fields[0]
+    if isinstance(v, (StrSym, StringV)) and all(not b.sym() for b in v.b):
+        return bytes(b.v for b in v.b).decode('utf-8', 'replace')
     return v.s if isinstance(v, StrV) else None
 
 
@@ -170,6 +172,89 @@ class CompleteModulesSpec:
 
 def complete_factory():
     return CompleteModulesSpec()
+
+
+class CompleteNamesSpec:
+    """complete_expr's loop over the names in scope: every name is OFFERED and INSERTED under the name it has in this scope (an
+    unqualified import `import m.{pubf as g}` is `g` here), whatever the definition calls itself.  The resolver yields one entry
+    (scope name `g`, a definition of symbolic kind); render_fn / render_variant answer with the definition's own name `own`."""
+
+    def make_interp(self):
+        it = W.interp('ide', uc=True)
+        it.allow = [r'^ide::completion::complete_expr$', r'^ide::completion::complete_expr::\{closure#\d+\}$']
+        scopes.install(it)
+        self.kind = z3.BitVec('defkind', 8)
+        src = open(os.path.join(os.environ.get('VERIF_REPO', '/repo'), 'crates/ide/src/ide/completion.rs'), encoding='utf-8').read()
+        m = re.search(r'pub struct CompletionItem\s*\{(.*?)\n\}', src, flags=re.S)
+        self.fields = re.findall(r'^\s*(?:pub(?:\([^)]*\))?\s+)?(\w+)\s*:', re.sub(r'//[^\n]*', '', m.group(1)), flags=re.M)
+        self.kinds = [vn for vn, hf, d in W.enums['ResolveResult']]
+        it.solver.add(z3.ULT(self.kind, len(self.kinds)))
+        spec = self
+
+        def names_in_scope(it_, c, a):
+            k = it_.choose([(spec.kind == i, i) for i in range(len(spec.kinds))])
+            spec.k = spec.kinds[k]
+            mp = MapV()
+            mp.kv.append((scopes.smol(StrV('g')), Agg('enum', 'ResolveResult', spec.k, [LazyV('def')])))
+            return mp
+
+        def item(name):
+            vals = []
+            for f in spec.fields:
+                vals.append(scopes.smol(StrV(name)) if f in ('label', 'replace') else LazyV(f))
+            return Agg('struct', 'CompletionItem', None, vals)
+        base_into = it.trait_models.get(('IntoIterator', 'into_iter'))
+
+        def into_iter(it_, c, a):
+            v = a[0]
+            if isinstance(v, MapV) and not c.startswith('<&'):
+                return PyIter((tup(k, x) for k, x in list(v.kv)))          # by-value map iteration yields owned pairs
+            return base_into(it_, c, a)
+        it.trait_models[('IntoIterator', 'into_iter')] = into_iter
+        it.models['Resolver::values_names_in_scope'] = names_in_scope
+        it.models['render::render_fn'] = lambda it_, c, a: item('own')
+        it.models['render::render_variant'] = lambda it_, c, a: item('own')
+        it.models['fmt::format'] = lambda it_, c, a: StringV([IntV(x, 8, 0) for x in b'g'])          # format!("{}", name)
+        it.models['ModuleItemData::module_imports'] = lambda it_, c, a: PyIter(iter([]))
+        return it
+
+    def run_path(self, it):
+        b = W.crates['ide']['ide::completion::complete_expr']
+        self.k = None
+        acc = VecV([])
+        it.run_body(b, [RefV([acc], 0), LazyV('ctx')])
+        if self.k is None:
+            return {'cls': 'no-expression-context', 'ok': True}
+        li, ri = self.fields.index('label'), self.fields.index('replace')
+        got = []
+        for x in acc.items:
+            x = models.deref(x)
+            got.append((strs(x.fields[li]) if isinstance(x, Agg) else None, strs(x.fields[ri]) if isinstance(x, Agg) else None)); self._raw = repr(x.fields[ri]) if isinstance(x, Agg) else repr(x)
+        bad = []
+        if len(got) != 1:
+            bad.append('C18: the name `g` in scope (a %s) yields %d completion items' % (self.k, len(got)))
+        elif got[0] != ('g', 'g'):
+            bad.append('C18: a %s that is in scope under the name `g` (e.g. `import m.{own as g}`) is offered as `%s` and inserted as `%s`: the offered name is not the one visible here and does not resolve [%s]' % (self.k, got[0][0], got[0][1], getattr(self, '_raw', '')))
+        rec = {'cls': 'names:%s' % self.k, 'ok': True, 'sample': {'kind': self.k, 'items': got}}
+        if bad:
+            rec.update({'cls': 'violation', 'ok': False, 'why': bad, 'cex': {'kind': self.k}})
+        return rec
+
+    def on_panic(self, it, e):
+        return {'cls': 'panic-under-havoc', 'ok': True}
+
+
+def names_factory():
+    return CompleteNamesSpec()
+
+
+def native_alias_names(oracle):
+    files = [{'path': '/app/src/main.gleam', 'text': 'import foo.{pubf as g, Bar as Qux}\nfn main() { a }\n', 'root': 0},
+             {'path': '/app/src/foo.gleam', 'text': 'pub fn pubf() { 1 }\npub type T { Bar }\n', 'root': 0}]
+    app = files[0]['text']
+    r = oracle.ask('complete', json.dumps({'files': files, 'roots': [{'path': '/app', 'local': True, 'deps': []}], 'file': 0, 'offsets': [app.index('{ a }') + 3]}))
+    labels = (r.get('complete') or [None])[0] if isinstance(r, dict) else None
+    return labels, r
 
 
 # ------------------------------------------------------------------------------------------------ public-API probes
@@ -351,6 +436,26 @@ def native_dot_fields(oracle):
         labels = (r.get('complete') or [None])[0] if isinstance(r, dict) else None
         out.append((adt, want, labels, r))
     return out
+
+
+def part_c18_names(chk, tier, jobs, oracle):
+    from mirsym import explore
+    res, complete = explore.explore(names_factory, (), jobs=1)
+    chk.add_run('complete_expr: a name in scope (definition kind symbolic) is offered and inserted under its scope name', res, complete, {}, nontrivial_classes=lambda c: c.startswith('names:'))
+    labels, raw = native_alias_names(oracle)
+    wrong = labels is None or 'g' not in labels or 'Qux' not in labels or 'pubf' in labels or 'Bar' in labels
+    if res.violations:
+        why = '; '.join(sorted({w for v in res.violations for w in v['why']}))[:500]
+        if wrong:
+            chk.violation('complete:scope-names', 'bounded', '%s; public API: completions after `import foo.{pubf as g, Bar as Qux}` are %s (g and Qux expected, not pubf / Bar)' % (why, labels if labels is not None else raw),
+                          {'program': 'import foo.{pubf as g, Bar as Qux}'}, confirmed=True)
+        else:
+            chk.inconclusive.append('complete_expr names kernel: %s -- but the public API offers the aliased names (%s)' % (why, labels))
+    elif wrong:
+        chk.inconclusive.append('translator validation FAILED: complete_expr names kernel finds no problem; the public API offers %s after `import foo.{pubf as g, Bar as Qux}`' % (labels if labels is not None else raw))
+    else:
+        chk.validated += 1
+        chk.log('complete_expr: aliased unqualified imports are offered under their alias through the public API')
 
 
 def part_c18_fields(chk, tier, jobs, oracle):
